@@ -399,7 +399,7 @@ def crash_class(args, rc, err):
     h = hang_class(args)
     if h:
         return h
-    if rc == 124 and any(re.search(r":\d+-(\.|$)", a) for a in args):
+    if rc == 124 and any(re.search(r"[:=]\d+-(\.|$)", a) for a in args):
         return "calc-open-range-beyond-level-2pow32-iterations"
     return None
 
@@ -407,7 +407,7 @@ def crash_class(args, rc, err):
 def hang_class(args):
     """arguments that make hwloc_calc_append_object_range iterate ~2^32 times or hit its assert()"""
     for a in args:
-        for m in re.finditer(r":(\d+)(?:-(\d+)|:(-?\d+))(?=\.|$)", a):
+        for m in re.finditer(r"[:=](\d+)(?:-(\d+)|:(-?\d+))(?=\.|$)", a):
             x = int(m.group(1))
             if m.group(2) is not None and int(m.group(2)) < x - 1:
                 return "calc-reversed-range-2pow32-iterations"
@@ -530,7 +530,7 @@ def check_calc_topology(ctx, kind, arg, ncmd, nmal, rng, corpus_cmds=()):
             else:
                 args = [rng.choice(["pu:0", "all", "core:all"])] + rng.choice(G.ODD_OPTIONS)
                 cls = "odd-option"
-            if hang_class(args) or G.HANG_RE.search(" ".join(args)) or any(re.search(r":\d+-(\.|$)", a) for a in args):
+            if hang_class(args) or G.HANG_RE.search(" ".join(args)) or any(re.search(r"[:=]\d+-(\.|$)", a) for a in args):
                 ctx.bump("malformed-skipped-known-hang-class")
                 continue
             rc, out, err = tool(args)
